@@ -1,5 +1,7 @@
 import Swat4.Lemmas.ReporterUC
 import Swat4.Lemmas.ReporterPost
+import Swat4.Model.Heartbeat6
+import Swat4.Lemmas.Heartbeat6
 /-!
 # C05 — Reporter traffic from one IP can never touch another IP's servers
 
@@ -381,5 +383,267 @@ example :
 set_option maxRecDepth 20000 in
 /-- non-vacuity of the hypothesis of `instances_change_only_for_presented_id`: A's report changes `instances[X]` -/
 example : (dispatch ⟨3⟩ stB ipA 2222 (report idX) 2024).1.instances[idNat idX]? ≠ stB.instances[idNat idX]? := by decide
+
+/-! ## IPv6 sources (`Model/Heartbeat6.lean`)
+
+`dispatch` takes the source as a number (four bytes).  A datagram from an IPv6 source that is not IPv4-mapped
+(`connAddr.IP.To4() == nil`; the reporter socket is dual-stack) is the subject of `Heartbeat6.dispatch6`, which takes
+`connAddr.IP` as bytes.  Such a source owns no server (every stored address is IPv4) — so C05 demands that it
+touches NO server record at all. -/
+
+open Swat4.Heartbeat6 in
+/-- for a 16-byte address, "not IPv4-mapped" is exactly `To4() == nil` -/
+theorem to4_none_iff (src16 : Bytes) (h : src16.length = 16) : to4 src16 = none ↔ src16.take 12 ≠ v4InV6Prefix := by
+  unfold to4
+  rw [if_neg (by omega)]
+  by_cases hp : src16.take 12 = v4InV6Prefix
+  · rw [if_pos ⟨h, hp⟩]; simp [hp]
+  · rw [if_neg (fun c => hp c.2)]; simp [hp]
+
+open Swat4.Heartbeat6 in
+/-- `net.IP.Equal` of a four-byte address and a nil slice is `false` (lengths 4 and 0: none of the three cases) -/
+theorem ipEqual_nil (ip : Nat) : ipEqual (ipBytes ip) [] = false := rfl
+
+open Swat4.Heartbeat6 in
+theorem addrNewIP_non_ipv4 (src : Bytes) (h : to4 src = none) (port : Int) : addrNewIP src port = none := by
+  unfold addrNewIP
+  rw [h]
+  split
+  · rfl
+  · split <;> rfl
+
+open Swat4.Heartbeat6 in
+theorem handleHeartbeat6_non_ipv4 (cfg : Cfg) (st : AbsState) (src : Bytes) (h : to4 src = none) (srcPort : Nat)
+    (payload : Bytes) (now : Int) : handleHeartbeat6 cfg st src srcPort payload now = (st, .err) := by
+  unfold handleHeartbeat6
+  cases parseInstanceID payload with
+  | none => rfl
+  | some p =>
+    obtain ⟨id, rest⟩ := p
+    dsimp only
+    cases parseHeartbeatParams rest with
+    | none => rfl
+    | some fields =>
+      dsimp only
+      split
+      · rfl
+      · have : parseAddrIP src fields = none := by
+          unfold parseAddrIP
+          split
+          · rw [addrNewIP_non_ipv4 src h]
+          · rfl
+        rw [this]
+
+open Swat4.Heartbeat6 in
+theorem handleKeepalive6_non_ipv4 (st : AbsState) (src : Bytes) (h : to4 src = none) (payload : Bytes) (now : Int) :
+    handleKeepalive6 st src payload now = (st, .err) := by
+  unfold handleKeepalive6
+  cases parseInstanceID payload with
+  | none => rfl
+  | some p =>
+    obtain ⟨id, rest⟩ := p
+    dsimp only
+    simp only [renewIP, Prog.run, Call.exec, h, nilEmpty]
+    cases st.insGet (idNat id) with
+    | error e => simp only [finish, run_pure]
+    | ok inst =>
+      dsimp only
+      rw [ipEqual_nil]
+      simp only [Bool.not_false, if_true, finish, run_pure]
+
+open Swat4.Heartbeat6 in
+/-- **What the dispatcher does with a non-IPv4 source, in full.**  For every state, clock, payload and every source
+with `To4() == nil`: the empty datagram panics (as from any source); a challenge (type 01) or availability (type 09)
+request is answered exactly as from an IPv4 source (those handlers ignore the source); EVERYTHING else — heartbeat,
+removal, keepalive, unknown type — is an error, nothing is sent, and the state is the state before.  This is the
+expression the driver used to hard-code for `dg6` (Drv/RepCommon.lean); it now runs `dispatch6`. -/
+theorem dispatch6_non_ipv4 (cfg : Cfg) (st : AbsState) (src : Bytes) (h : to4 src = none) (srcPort : Nat)
+    (payload : Bytes) (now : Int) :
+    dispatch6 cfg st src srcPort payload now =
+      match payload with
+      | t :: _ => if t.toNat = Facts.reporterMsgChallenge ∨ t.toNat = Facts.reporterMsgAvailable
+          then dispatch cfg st 0 srcPort payload now else (st, Outcome.err)
+      | [] => (st, Outcome.panic) := by
+  cases payload with
+  | nil => rfl
+  | cons t rest =>
+    unfold dispatch6 dispatch
+    dsimp only
+    by_cases h3 : t.toNat = Facts.reporterMsgHeartbeat
+    · have : ¬ (t.toNat = Facts.reporterMsgChallenge ∨ t.toNat = Facts.reporterMsgAvailable) := by
+        rw [h3]; decide
+      rw [if_pos h3, if_neg this]
+      exact handleHeartbeat6_non_ipv4 cfg st src h srcPort _ now
+    · rw [if_neg h3]
+      by_cases h8 : t.toNat = Facts.reporterMsgKeepalive
+      · have : ¬ (t.toNat = Facts.reporterMsgChallenge ∨ t.toNat = Facts.reporterMsgAvailable) := by
+          rw [h8]; decide
+        rw [if_pos h8, if_neg this]
+        exact handleKeepalive6_non_ipv4 st src h _ now
+      · rw [if_neg h8, if_neg h3, if_neg h8]
+        by_cases h1 : t.toNat = Facts.reporterMsgChallenge
+        · rw [if_pos h1, if_pos (Or.inl h1)]
+        · rw [if_neg h1]
+          by_cases h9 : t.toNat = Facts.reporterMsgAvailable
+          · rw [if_pos h9, if_pos (Or.inr h9)]
+          · rw [if_neg h9, if_neg (by rintro (c | c); exact h1 c; exact h9 c)]
+
+open Swat4.Heartbeat6 in
+/-- **A datagram from a non-IPv4 source changes NOTHING**: for every state, payload, clock and every source with
+`To4() == nil`, the whole state after `dispatch6` — registry, instance table, probe queue — is the state before.
+(Not even `instances`: a heartbeat, which from an IPv4 source would rebind the presented instance id, is rejected
+by `addr.New` before `reportserver` runs.) -/
+theorem ipv6_source_changes_nothing (cfg : Cfg) (st : AbsState) (src16 : Bytes) (h : to4 src16 = none) (srcPort : Nat)
+    (payload : Bytes) (now : Int) : (dispatch6 cfg st src16 srcPort payload now).1 = st := by
+  rw [dispatch6_non_ipv4 cfg st src16 h]
+  cases payload with
+  | nil => rfl
+  | cons t rest =>
+    dsimp only
+    split
+    · rename_i hc
+      apply C06_only
+      · intro e; rw [e] at hc; revert hc; decide
+      · intro e; rw [e] at hc; revert hc; decide
+    · rfl
+where
+  /-- challenge / availability requests leave the state alone (`dispatch` on a type byte other than 03 / 08) -/
+  C06_only {cfg : Cfg} {st : AbsState} {ip port : Nat} {t : UInt8} {rest : Bytes} {now : Int}
+      (h1 : t.toNat ≠ Facts.reporterMsgHeartbeat) (h2 : t.toNat ≠ Facts.reporterMsgKeepalive) :
+      (dispatch cfg st ip port (t :: rest) now).1 = st := by
+    unfold dispatch
+    dsimp only
+    rw [if_neg h1, if_neg h2]
+    split
+    · rfl
+    · split <;> rfl
+
+open Swat4.Heartbeat6 in
+/-- **C05 for IPv6 sources: no server record is touched.**  For every state and payload, a datagram whose source is
+not an IPv4 (or IPv4-mapped) address — so an address NO stored server can have — leaves every server record as it
+was: `servers` after `dispatch6` is `servers` before.  By `ipv6_source_changes_nothing` it may change nothing else
+either (instance table and probe queue included). -/
+theorem ipv6_source_touches_no_server (cfg : Cfg) (st : AbsState) (src16 : Bytes) (h : to4 src16 = none) (srcPort : Nat)
+    (payload : Bytes) (now : Int) : (dispatch6 cfg st src16 srcPort payload now).1.servers = st.servers := by
+  rw [ipv6_source_changes_nothing cfg st src16 h]
+
+open Swat4.Heartbeat6 in
+/-- **A keepalive from an IPv6 source is rejected, whatever it presents.**  For every state, every source with
+`To4() == nil` and every datagram with type byte 08 (any length, any instance id — known or unknown, bound to any
+address): error, nothing sent, state unchanged.  In particular when the low 32 bits of the source spell the IPv4
+address the instance is bound to (`2001:db8::1.1.1.1` against a server of 1.1.1.1 — example below): the owner check
+is `inst.Addr.GetIP().Equal(req.ipAddr.To4())`, the argument is `nil`, and `Equal` of a 4-byte and a 0-byte slice
+is `false`; the low bytes are never looked at. -/
+theorem ipv6_keepalive_rejected (cfg : Cfg) (st : AbsState) (src16 : Bytes) (h : to4 src16 = none) (srcPort : Nat)
+    (rest : Bytes) (now : Int) : dispatch6 cfg st src16 srcPort (0x08 :: rest) now = (st, .err) := by
+  rw [dispatch6_non_ipv4 cfg st src16 h]
+  rfl
+
+open Swat4.Heartbeat6 in
+/-- likewise a heartbeat or removal (type byte 03) from an IPv6 source: `addr.New` answers `ErrInvalidIP` -/
+theorem ipv6_heartbeat_rejected (cfg : Cfg) (st : AbsState) (src16 : Bytes) (h : to4 src16 = none) (srcPort : Nat)
+    (rest : Bytes) (now : Int) : dispatch6 cfg st src16 srcPort (0x03 :: rest) now = (st, .err) := by
+  rw [dispatch6_non_ipv4 cfg st src16 h]
+  rfl
+
+/-- `2001:db8::1.1.1.1`: the low 32 bits are B's IPv4 address -/
+def src6B : Bytes := [0x20, 0x01, 0x0d, 0xb8, 0, 0, 0, 0, 0, 0, 0, 0, 1, 1, 1, 1]
+/-- `::1.1.1.1` (IPv4-COMPATIBLE, not mapped: `To4()` is nil for it too) -/
+def src6Bcompat : Bytes := [0, 0, 0, 0, 0, 0, 0, 0, 0, 0, 0, 0, 1, 1, 1, 1]
+/-- `::ffff:1.1.1.1` (IPv4-MAPPED: this one IS 1.1.1.1) -/
+def src6Bmapped : Bytes := [0, 0, 0, 0, 0, 0, 0, 0, 0, 0, 0xff, 0xff, 1, 1, 1, 1]
+
+open Swat4.Heartbeat6 in
+/-- non-vacuity of `to4 src16 = none`, and its boundary: a 16-byte source whose low 32 bits are 1.1.1.1 has no
+IPv4 form unless its first twelve bytes are the mapped prefix -/
+example : to4 src6B = none ∧ to4 src6Bcompat = none ∧ to4 src6Bmapped = some [1, 1, 1, 1] ∧ ipNat [1, 1, 1, 1] = ipB := by
+  refine ⟨?_, ?_, ?_, ?_⟩ <;> decide
+
+set_option maxRecDepth 20000 in
+open Swat4.Heartbeat6 in
+/-- **the instance of `ipv6_keepalive_rejected` the property text asks about.**  In the reachable state `stB` (B =
+1.1.1.1 has registered 1.1.1.1:10480 under instance id X) B's own keepalive with X is accepted and refreshes the
+server; the SAME datagram from `2001:db8::1.1.1.1` or `::1.1.1.1` is rejected and changes nothing; from the mapped
+`::ffff:1.1.1.1` — which IS 1.1.1.1 — it is accepted with the same effect as from 1.1.1.1. -/
+example :
+    dispatch ⟨3⟩ stB ipB 1111 (0x08 :: idX) 3000 ≠ (stB, .err)
+    ∧ (dispatch ⟨3⟩ stB ipB 1111 (0x08 :: idX) 3000).2 = .silent
+    ∧ dispatch6 ⟨3⟩ stB src6B 1111 (0x08 :: idX) 3000 = (stB, .err)
+    ∧ dispatch6 ⟨3⟩ stB src6Bcompat 1111 (0x08 :: idX) 3000 = (stB, .err)
+    ∧ (dispatch6 ⟨3⟩ stB src6Bmapped 1111 (0x08 :: idX) 3000).2 = .silent :=
+  ⟨fun e => by have := congrArg Prod.snd e; revert this; decide, by decide,
+   ipv6_keepalive_rejected _ _ _ (by decide) _ _ _, ipv6_keepalive_rejected _ _ _ (by decide) _ _ _, by decide⟩
+
+/-! ### `dispatch6` generalises `dispatch` -/
+
+/-- every address the instance table holds is a four-byte address (what `addr.Addr.IP [4]byte` is by type) -/
+def InstanceIpsFit (st : AbsState) : Prop :=
+  ∀ (id : Nat) (a : Addr) (t : Int), st.instances[id]? = some (a, t) → a.ip < 4294967296
+
+open Swat4.Heartbeat6 in
+theorem handleKeepalive6_mapped (st : AbsState) (hfit : InstanceIpsFit st) (src v4 : Bytes) (h : to4 src = some v4)
+    (payload : Bytes) (now : Int) : handleKeepalive6 st src payload now = handleKeepalive st (ipNat v4) payload now := by
+  unfold handleKeepalive6 handleKeepalive
+  cases parseInstanceID payload with
+  | none => rfl
+  | some p =>
+    obtain ⟨id, rest⟩ := p
+    dsimp only
+    congr 1
+    simp only [renewIP, UC.renew, Prog.run, Call.exec, h, nilEmpty]
+    cases hg : st.insGet (idNat id) with
+    | error e => rfl
+    | ok inst =>
+      dsimp only
+      have hlt : inst.addr.ip < 4294967296 := by
+        unfold AbsState.insGet at hg
+        split at hg
+        · rename_i a t hi
+          cases hg
+          exact hfit _ a t hi
+        · cases hg
+      have hiff := ipEqual_v4 inst.addr.ip hlt v4 (to4_length h).1
+      by_cases he : inst.addr.ip = ipNat v4
+      · have e1 : (inst.addr.ip ≠ ipNat v4) = False := by simp [he]
+        simp only [hiff.mpr he, e1, Bool.not_true, Bool.false_eq_true, if_false]
+        rfl
+      · have : ipEqual (ipBytes inst.addr.ip) v4 = false := by
+          cases hb : ipEqual (ipBytes inst.addr.ip) v4 with
+          | false => rfl
+          | true => exact absurd (hiff.mp hb) he
+        have e1 : (inst.addr.ip ≠ ipNat v4) = True := by simp [he]
+        simp only [this, e1, Bool.not_false, if_true]
+
+open Swat4.Heartbeat6 in
+/-- **`dispatch6` is `dispatch` on every source that HAS an IPv4 form.**  For a source `src` (4 bytes, or 16 bytes
+IPv4-mapped) with `To4() = v4`, every payload and clock, and every state whose instance table holds four-byte
+addresses: `dispatch6` returns exactly the state and outcome of `Heartbeat.dispatch` for the number `ipNat v4`.  So
+the two dispatchers are one model of the Go dispatcher, split by whether `connAddr.IP.To4()` is nil, and all the
+theorems above about `dispatch` carry over to mapped sources. -/
+theorem dispatch6_mapped (cfg : Cfg) (st : AbsState) (hfit : InstanceIpsFit st) (src v4 : Bytes) (h : to4 src = some v4)
+    (srcPort : Nat) (payload : Bytes) (now : Int) :
+    dispatch6 cfg st src srcPort payload now = dispatch cfg st (ipNat v4) srcPort payload now := by
+  unfold dispatch6 dispatch
+  cases payload with
+  | nil => rfl
+  | cons t rest =>
+    dsimp only
+    split
+    · unfold handleHeartbeat6 handleHeartbeat
+      simp only [parseAddrIP_mapped h, heartbeatReplyIP_mapped h]
+      rfl
+    · split
+      · exact handleKeepalive6_mapped st hfit src v4 h _ now
+      · rfl
+
+/-- non-vacuity of `InstanceIpsFit`: the empty table, and a table binding X to 1.1.1.1:10480 -/
+example : InstanceIpsFit {} := by intro id a t h; simp at h
+
+example : InstanceIpsFit (({} : AbsState).insAdd 7 ⟨idNat idX, ⟨ipB, 10480⟩⟩) := by
+  intro id a t h
+  simp only [AbsState.insAdd, ExtTreeMap.getElem?_insert] at h
+  split at h
+  · cases h; decide
+  · simp at h
 
 end Swat4.C05
